@@ -1,6 +1,7 @@
 //! Harness-side reference models, written independently of blots-core.
 
 pub mod dec;
+pub mod json;
 pub mod mv;
 pub mod prec;
 
